@@ -3,7 +3,7 @@ from __future__ import annotations
 
 import ast
 
-from ..astq import Inliner, U, raised_class_name, statements, store_targets
+from ..astq import Canon, Inliner, U, raised_class_name, statements, store_targets, unify
 from ..cfg import CFG, header_walk
 from ..index import AnalysisError, walk_no_nested
 from ..selftest import V
@@ -25,7 +25,7 @@ CLS = "VariablesDAG"
 
 
 def r1_validators(ctx):
-    ctx.rule("C15.R1", "validators dominate every stored result; each refusal present", 10)
+    ctx.rule("C15.R1", "validators dominate every stored result; each refusal present", 9)
     ix = ctx.ix
     cg = callgraph(ctx)
     pi = ix.func(DAG, f"{CLS}.__post_init__", "C15.R1")
@@ -53,25 +53,30 @@ def r1_validators(ctx):
         ctx.check(ok, "C15.R1", pi, pi.node, f"refusal of {what} runs before any result is stored",
                   f"a computed field of the graph can be stored without the refusal of {what} ({vname}) having run", construct=f"{vname} before results")
     # each refusal present under its guard
-    want = [("_raise_if_bad_nodes_in_edges", "len(unknown_nodes)", "unknown nodes"), ("_raise_if_bad_nodes_in_edges", "len(self_loops)", "self references"),
-            ("_raise_if_left_alone_nodes", "len(s_left_alone)", "isolated variables"),
-            ("compute_topological_order_and_path_matrix", "set(sorted_nodes) != set(nodes)", "cycle (some node never became a root)"),
-            ("compute_topological_order_and_path_matrix", "triu(1)", "cycle (path matrix not strictly upper-triangular)")]
-    for fn, needle, what in want:
+    UNK = "set().union(*$0.values()).difference($1)"
+    LOOPS = "{%0 for %0, %1 in $0.items() if %0 in %1}"
+    ALONE = "{%0 for %0, %1 in $0.items() if len(%1) == 0 and len($1[%0]) == 0}"
+    want = [("_raise_if_bad_nodes_in_edges", {f"len({UNK})", UNK, f"len({UNK}) > 0"}, "unknown nodes", "unknown = all referenced nodes minus declared ones"),
+            ("_raise_if_bad_nodes_in_edges", {f"len({LOOPS})", LOOPS, f"len({LOOPS}) > 0"}, "self references", "self loop = node among its own edges"),
+            ("_raise_if_left_alone_nodes", {f"len({ALONE})", ALONE, f"len({ALONE}) > 0"}, "isolated variables", "isolated = no child and no ancestor"),
+            ("compute_topological_order_and_path_matrix", {"set(%0) != set(sorted($1.keys()))", "set(%0) != set(sorted($1))", "len(%0) != len(sorted($1.keys()))", "len(%0) != len(sorted($1.keys()))"},
+             "cycle (some node never became a root)", "emitted nodes == all nodes"),
+            ("compute_topological_order_and_path_matrix", None, "cycle (path matrix not strictly upper-triangular)", "path matrix == its strict upper triangle")]
+    for fn, forms, what, meaning in want:
         f = ix.func(DAG, f"{CLS}.{fn}", "C15.R1")
         c = CFG(f.node)
-        found = any(needle in U(c.stmt[h].test) and lab for r in c.nodes(lambda s: isinstance(s, ast.Raise)) for h, lab in c.if_guards(r))
-        ctx.check(found, "C15.R1", f, f.node, f"refusal present: {what}", f"the refusal of {what} (guard `{needle}`) is gone", construct=f"refusal: {what}")
-    # definitions of self_loops / unknown / left-alone sets
-    f = ix.func(DAG, f"{CLS}._raise_if_bad_nodes_in_edges", "C15.R1")
-    src = U(f.node)
-    ctx.check("set().union(*d_edges.values())" in src and ".difference(s_nodes)" in src, "C15.R1", f, f.node, "unknown = all referenced nodes minus declared ones", "unknown nodes are no longer all referenced minus declared",
-              construct="definition of unknown nodes")
-    ctx.check("{n for n, s_connected in d_edges.items() if n in s_connected}" in src, "C15.R1", f, f.node, "self loop = node among its own edges", "self references are no longer detected as `n in edges[n]`",
-              construct="definition of self loops")
-    f = ix.func(DAG, f"{CLS}._raise_if_left_alone_nodes", "C15.R1")
-    ctx.check("len(s_ancestors) == 0 and len(d_ancestors[var_name]) == 0" in U(f.node), "C15.R1", f, f.node, "isolated = no child and no ancestor", "isolated variables are no longer those without child and without ancestor",
-              construct="definition of isolated")
+        cn = Canon(f.node)
+        guards = [cn.text(c.stmt[h].test) for r in c.nodes(lambda s: isinstance(s, ast.Raise)) for h, lab in c.if_guards(r) if lab]
+        if forms is None:
+            found = any("triu(1)" in g_ and g_.startswith("not torch.equal(") for g_ in guards)
+        else:
+            found = any(g_ in forms for g_ in guards)
+        ctx.check(found, "C15.R1", f, f.node, f"refusal present: {what} ({meaning})", f"the refusal of {what} (a raise guarded by `{sorted(forms)[0] if forms else 'not torch.equal(M, M.triu(1))'}`) is gone or tests something else",
+                  construct=f"refusal: {what}")
+    f = ix.func(DAG, f"{CLS}.compute_topological_order_and_path_matrix", "C15.R1")
+    L = Canon(f.node).lines(False, True)
+    ok = unify(L, ["?sn += (?n,)", "if set(?sn) != set(?nodes)", "return (?sn, ?pm)"]) is not None
+    ctx.check(ok, "C15.R1", f, f.node, "the emitted order is what the cycle test compares and what is returned", "the cycle test no longer compares the emitted order with the set of nodes", construct="cycle test on the emitted order")
 
 
 def _always_reaches(ix, cg, f, target, seen) -> bool:
@@ -131,9 +136,9 @@ def r2_determinism(ctx):
     q = [st for st in statements(f.node) if isinstance(st, ast.Assign) and isinstance(st.value, ast.Call) and U(st.value.func) in ("SimpleQueue", "Queue", "deque", "collections.deque", "queue.SimpleQueue", "LifoQueue", "list")]
     sets = [st for st in statements(f.node) if isinstance(st, ast.Assign) and U(st.targets[0]).startswith("q_") and isinstance(st.value, (ast.Set, ast.Call)) and U(getattr(st.value, "func", st.value)) in ("set", "frozenset")]
     ctx.check(bool(q) and not sets, "C15.R2", f, q[0] if q else f.node, "work list is a queue (deterministic order)", "the work list of roots is a set: pop order is not deterministic", construct="work list")
-    src = U(f.node)
-    ctx.check("nodes = sorted(direct_ancestors.keys())" in src or "nodes = sorted(direct_ancestors)" in src, "C15.R2", f, f.node, "nodes sorted by name first", "the nodes are no longer name-sorted before the traversal",
-              construct="name-sorted nodes")
+    L = Canon(f.node).lines(False, True)
+    ok = unify(L, ["?nodes = sorted($1.keys())", "?ix = {?n: ?i for ?i, ?n in enumerate(?nodes)}"]) is not None or unify(L, ["?nodes = sorted($1)", "?ix = {?n: ?i for ?i, ?n in enumerate(?nodes)}"]) is not None
+    ctx.check(ok, "C15.R2", f, f.node, "nodes sorted by name first", "the nodes are no longer name-sorted before the traversal", construct="name-sorted nodes")
 
 
 def _orderedness(e, ordered, unordered) -> str:
@@ -289,9 +294,10 @@ def r4_orientation(ctx):
         r_, c_ = (e.id for e in s_.targets[0].slice.elts)
         good = popped and idx_of.get(r_) == popped[0] and idx_of.get(c_) == child
         ctx.check(good, "C15.R4", f, s_, "direct edge written at [parent, child]", f"`{U(s_)}` writes the edge at [{idx_of.get(r_)}, {idx_of.get(c_)}], not [parent, child]: rows would hold ancestors, columns descendants")
-    src = U(f.node)
-    ctx.anchor("[ix_sorted_nodes, :][:, ix_sorted_nodes]" in src, "C15.R4", f, f.node, "rows and columns permuted into the emitted order", "re-indexing of the path matrix into the emitted order", construct="re-indexing")
-    ok = ".difference({" in src and "if len(direct_ancestors_[" in src.replace("direct_ancestors_", "direct_ancestors_") and "== 0" in src
+    L = Canon(f.node).lines(False, True)
+    ok = unify(L, ["?sn += (?n,)", "?ix = [?idx[?m] for ?m in ?sn]", "?pm = ?pm[?ix, :][:, ?ix]", "return (?sn, ?pm)"]) is not None
+    ctx.anchor(ok, "C15.R4", f, f.node, "rows and columns permuted into the emitted order", "re-indexing of the path matrix into the emitted order", construct="re-indexing")
+    ok = unify(L, ["?n = ?q.get()", "?da[?c] = ?da[?c].difference({?n})", "if len(?da[?c]) == 0", "?q.put(?c)"]) is not None
     ctx.anchor(ok, "C15.R4", f, f.node, "a node is emitted only once all its direct ancestors were", "Kahn condition (remaining ancestors == 0)", construct="Kahn condition")
     g = ix.func(DAG, f"{CLS}.compute_sorted_children_and_ancestors", "C15.R4")
     a = g.node.args.args
